@@ -109,6 +109,8 @@ def check(P, rep):
             rep.check(ok, 'C06.R1', '%s::%s:%s:%s' % (cn, en, e.kind, role), what, esite(g, e),
                       'auth sites: %d; stale-read auth sites ignored: %d' % (len(nodes), len(stale)), w)
         inv['roles'] = sorted(inv['roles'])
+    for cn_ in P.crates:
+        storage_classes(P, rep, 'C06.R1', cn_, {'Interfaces_Owner': 'instance', 'Interfaces_Operator': 'instance', 'GasCollector': 'instance', 'Interfaces_Migrating': 'instance'})
     rep.floor('entry points analysed', n_entries, 90)
     rep.floor('protected admin effects found', n_prot, 25)
     # R3: gateway rotation path: delay guard or operator auth
